@@ -183,3 +183,29 @@ Definition split_value (k : nat) (m : list Ob) : V :=
   dot (foldL 0 (firstn k m) init) (foldR k (skipn k m) init).
 
 End Fast.
+
+(* ------------------------------------------------------------------- symbolic observables and the caller's list *)
+(* Mps.expectations first converts every Op / OpSum entry with Mpo(self.model, op) into a FRESH list (`new_mpos`);
+   ready Mpo entries are taken as they are.  The caller's list is an input only.  To make "is not written" statable
+   the call returns the caller's list as a second component (what the caller holds after the call). *)
+Section SymList.
+Variables E Ob V Sym Mdl St : Type.
+Variable build : Mdl -> Sym -> hop Ob.                       (* Mpo(self.model, op) *)
+Variable stepo : St -> domain -> nat -> Ob -> E -> E.         (* contract_one_site with the tensors of the state *)
+Variable init : E.
+Variable dflt : Ob.
+Variable dot : E -> E -> V.
+
+Definition entry := (Sym + hop Ob)%type.
+Definition convert (mdl : Mdl) (x : entry) : hop Ob := match x with inl s => build mdl s | inr m => m end.
+
+Definition expectations_call (mdl : Mdl) (st : St) (nmps : nat) (lst : list entry) : option (list V) * list entry :=
+  (expectations_fast E Ob V (stepo st) init dflt dot nmps (map (convert mdl) lst), lst).
+
+(* the same list object used for a state of model A and then for a state of model B *)
+Definition two_calls (mA : Mdl) (sA : St) (nA : nat) (mB : Mdl) (sB : St) (nB : nat) (lst : list entry)
+  : option (list V) * option (list V) * list entry :=
+  let '(vA, l1) := expectations_call mA sA nA lst in
+  let '(vB, l2) := expectations_call mB sB nB l1 in
+  (vA, vB, l2).
+End SymList.
